@@ -34,6 +34,14 @@ scripted base draws (`scripted_rng`), from outside:
   construction.  Expected: exactly the result of the same configuration laid out in parameter
   order (same scripted draws -> same output and draw count: a metamorphic check on the real
   code, `run_suite`), and the ordinary oracle and model comparison apply (bounds by name).
+* type / integrality of the current point (`gen_start_types`, field `xtype` of a case): every
+  discrete family (bounded and unbounded, successive on/off, adaptive variants) is asked to jump
+  from integers, integer-valued floats, non-integer floats (k+-0.5, k+-1e-9, negative ones: `int()`
+  truncates toward zero), and the same values as numpy.int64/int32/float64/float32/float16
+  scalars, 0-d arrays and bools; the proposals must be integers (in bounds for the bounded
+  families, not the current integer without successive jumps) and agree with the Lean model
+  (`truncZ x + step`).  Tried on the unchanged code: all of these are accepted; 1-d arrays
+  (`int()` raises TypeError) and strings are refused by the code and are no cases.
 
 Keys of the failing inputs (one per defect, stable across runs):
   bounded-eigenvector-corner-stall       start at a corner/edge: no proposal within the draw budget
@@ -639,7 +647,27 @@ def streak_tail(group, spec, prop, fromx, lens, script_ref):
     return tail
 
 
-def call_real(spec, prop, fromx, z, u, tail=None, budget=None):
+XTYPES = ('int', 'float', 'bool', 'np.int64', 'np.int32', 'np.float64', 'np.float32', 'np.float16', 'array0d')
+
+
+def typed_value(v, t):
+    """The start value v as an object of the type named t (the numeric value is unchanged)."""
+    if t == 'int':
+        return int(v)
+    if t == 'float':
+        return float(v)
+    if t == 'bool':
+        return bool(v)
+    if t in ('np.int64', 'np.int32'):
+        return getattr(numpy, t[3:])(int(v))
+    if t in ('np.float64', 'np.float32', 'np.float16'):
+        return getattr(numpy, t[3:])(v)
+    if t == 'array0d':
+        return numpy.array(v)
+    raise ValueError('unknown start type %r' % (t,))
+
+
+def call_real(spec, prop, fromx, z, u, tail=None, budget=None, xtype=None):
     """Run the real jump()/birth with the scripted generator.  Returns a dict:
     kind ok|refuse|starved|budget|error, out, script, contains log, numpy log."""
     g = GROUP_OF[spec['family']]
@@ -657,7 +685,7 @@ def call_real(spec, prop, fromx, z, u, tail=None, budget=None):
         log_contains = g == 'be'        # (only the eigenvector request of the model needs the tested points)
     sc = Script(z=z, u=u, tail=tl, budget=budget)
     ref[0] = sc
-    res = {'script': sc, 'contains': [], 'np': [], 'out': None, 'exc': None}
+    res = {'script': sc, 'contains': [], 'np': [], 'out': None, 'exc': None, 'xtype': xtype}
     try:
         with contextlib.ExitStack() as st:
             cl = st.enter_context(ContainsLog()) if log_contains else ContainsLog()
@@ -668,7 +696,10 @@ def call_real(spec, prop, fromx, z, u, tail=None, budget=None):
             if g == 'birth':
                 out = prop.birth
             else:
-                out = prop.jump(dict(fromx))
+                start = dict(fromx)
+                if xtype:       # the same numbers, handed over as other types
+                    start = {p: (typed_value(v, xtype[p]) if p in xtype else v) for p, v in start.items()}
+                out = prop.jump(start)
         res['kind'] = 'ok'
         res['out'] = out
     except ScriptExhausted:
@@ -703,6 +734,8 @@ def _is_integer_value(v):
     if isinstance(v, (bool, numpy.bool_)):
         return False
     if isinstance(v, (int, numpy.integer)):
+        return True
+    if isinstance(v, numpy.ndarray) and v.ndim == 0 and numpy.issubdtype(v.dtype, numpy.integer):
         return True
     return False
 
@@ -831,7 +864,9 @@ def judge(spec, prop, fromx, res):
         for i, p in enumerate(names):
             v = pt[p]
             if not _is_integer_value(v):
-                out.append(('%s-non-integer' % g, '%s proposed %s=%r (%s), not an integer' % (fam, p, v, type(v).__name__)))
+                out.append(('%s-non-integer' % g, '%s proposed %s=%r (%s), not an integer, from %s=%r%s' % (
+                    fam, p, v, type(v).__name__, p, fromx[p],
+                    ' (handed over as %s)' % res['xtype'][p] if res.get('xtype') and p in res['xtype'] else '')))
                 continue
             if g == 'bd':
                 lo, hi = declared_bounds(spec, prop)[p]
@@ -1787,11 +1822,75 @@ def random_named_cases(rng, n):
     return out
 
 
+# ---- type and integrality of the current point (discrete families)
+
+def start_values(k, lo=None, hi=None):
+    """[(value, type name)] around the integer k: the integer itself, integer-valued and
+    non-integer floats, negative non-integers, numpy scalars, 0-d arrays, bools; restricted to
+    [lo, hi] when bounds are given, plus two values just outside (a bounded proposal must refuse)."""
+    vals = [(k, 'int'), (k + 0.5, 'float'), (float(k), 'float'), (k - 0.5, 'float'), (k + 1e-9, 'float'),
+            (k - 1e-9, 'float'), (k + 0.999999, 'float'), (k + 0.25, 'float'),
+            (k, 'np.int64'), (k, 'np.int32'), (float(k), 'np.float64'), (k + 0.5, 'np.float64'),
+            (k - 1e-9, 'np.float64'), (k + 0.5, 'np.float32'), (float(k), 'np.float32'), (k + 0.25, 'np.float16'),
+            (k, 'array0d'), (k + 0.5, 'array0d'), (float(k), 'array0d'), (k - 0.25, 'array0d'),
+            (-2.5, 'float'), (-0.5, 'float'), (-1e-9, 'float'), (-2.999999, 'float'), (-0.5, 'np.float64'),
+            (-1.5, 'array0d'), (-0.75, 'np.float32'), (0, 'bool'), (1, 'bool')]
+    vals = [(v, t) for v, t in vals if abs(v) < 2 ** 24 or t not in ('np.float32', 'np.float16', 'np.int32')]
+    vals = [(v, t) for v, t in vals if float(typed_value(v, t)) == float(v)]
+    if lo is not None:
+        vals = [(v, t) for v, t in vals if lo <= v <= hi] + [(hi + 0.5, 'np.float64'), (lo - 1, 'array0d')]
+    return vals
+
+
+def gen_start_types(rng, tier, full):
+    a_spec = adapt_specs(rng, 'quick')[2]
+    if not full:
+        a_spec = dict(a_spec, steps=8, window=20)
+    dsets = [[0.3, -0.4], [1.5, -2.5], [-0.49, 0.51], [0.0, 2.5], [-1.0, 0.5]]
+    for fam in GROUPS['bd'] + GROUPS['nd']:
+        bounded = fam in GROUPS['bd']
+        adaptive = fam not in ('bounded_discrete', 'discrete')
+        for n in (1, 2):
+            names = param_names(n)
+            succs = [(False,), (True,)] if n == 1 else [(False, True), (True, False)] + ([(False, False)] if full else [])
+            for si, succ in enumerate(succs):
+                spec = dict(family=fam, n=n, successive=list(succ))
+                boxes = [(-3, 12), (0, 5)][:n] if bounded else [None] * n
+                if bounded:
+                    spec['bounds'] = [list(b) for b in boxes]
+                    spec['_ctor_bounds'] = [list(b) for b in boxes]
+                if adaptive:
+                    spec['adapt'] = a_spec
+                    std = [1.0] * n
+                else:
+                    std = [(1.0, 0.25, 4.0)[(j + si + n) % 3] for j in range(n)]
+                    spec['std'] = std
+                centres = [(4, 0, 12, -3) if b == (-3, 12) else ((2, 0, 5) if b else (4, 0, -7, 1000000)) for b in boxes]
+                for pos in range(n):
+                    for ki, k in enumerate(centres[pos] if full else centres[pos][:2]):
+                        lo, hi = boxes[pos] if bounded else (None, None)
+                        for vi, (v, t) in enumerate(start_values(k, lo, hi)):
+                            fromx, xtype = {}, {}
+                            for j, p in enumerate(names):
+                                if j == pos:
+                                    fromx[p], xtype[p] = v, t
+                                else:           # the other parameter: another type, inside its domain
+                                    olo, ohi = boxes[j] if bounded else (None, None)
+                                    others = [vt for vt in start_values(centres[j][0], olo, ohi)
+                                              if not bounded or olo <= vt[0] <= ohi]
+                                    fromx[p], xtype[p] = others[(vi + ki + si) % len(others)]
+                            for di, ds in enumerate(dsets if full else dsets[(vi + ki) % 2::2]):
+                                c = case(spec, fromx, z=[d / sd for d, sd in zip(ds, std)])
+                                c['xtype'] = xtype
+                                c['model'] = True
+                                yield c
+
+
 GENERATORS = {'bn': gen_bn, 'discrete': gen_discrete, 'ang': gen_ang, 'be': gen_be, 'sa': gen_sa,
               'birth': gen_birth}
 # directed generators added later; they run after the randomised cases so that the cases above
 # stay the same for a given seed
-LATE_GENERATORS = {'streaks': gen_streaks, 'named': gen_named}
+LATE_GENERATORS = {'streaks': gen_streaks, 'named': gen_named, 'start_types': gen_start_types}
 
 
 def random_cases(rng, n):
@@ -1898,7 +1997,8 @@ def run_case(c):
     prop = get_prop(c['spec'])
     if isinstance(prop, Exception):
         return None, 'build: %r' % (prop,)
-    res = call_real(c['spec'], prop, c['fromx'], c['z'], c['u'], tail=c.get('tail'), budget=c.get('budget'))
+    res = call_real(c['spec'], prop, c['fromx'], c['z'], c['u'], tail=c.get('tail'), budget=c.get('budget'),
+                    xtype=c.get('xtype'))
     return prop, res
 
 
@@ -1934,6 +2034,26 @@ def note_streak(stats, c, used_z, walk):
             s['longest_streak_measured'] = max(s['longest_streak_measured'], k)
             pp = s['loops_with_streak_per_position']
             pp[str(i)] = pp.get(str(i), 0) + 1
+
+
+def note_start_types(stats, c, rec):
+    """Measured numbers of one typed-start case (evidence coverage)."""
+    s = stats.setdefault('_start_types', {'cases': 0, 'per_family': {}, 'per_type_of_start': {}, 'outcomes': {},
+                                          'non_integer_valued_starts': 0, 'negative_non_integer_starts': 0,
+                                          'compared_with_model': 0})
+    fam = c['spec']['family']
+    s['cases'] += 1
+    s['per_family'][fam] = s['per_family'].get(fam, 0) + 1
+    s['outcomes'][rec['kind']] = s['outcomes'].get(rec['kind'], 0) + 1
+    for p, t in c['xtype'].items():
+        s['per_type_of_start'][t] = s['per_type_of_start'].get(t, 0) + 1
+        v = float(c['fromx'][p])
+        if v != int(v):
+            s['non_integer_valued_starts'] += 1
+            if v < 0:
+                s['negative_non_integer_starts'] += 1
+    if rec['pr'] is not None:
+        s['compared_with_model'] += 1
 
 
 def _named_stats():
@@ -2107,6 +2227,8 @@ def run_suite(cases, do_model=True, stats=None, model_every=1):
             distinct.add(json.dumps(describe(c), sort_keys=True, default=str))
         if is_streak(c):
             note_streak(stats, c, rec['used_z'], rec['walk'])
+        if c.get('xtype'):
+            note_start_types(stats, c, rec)
         if c['spec'].get('cfg') is not None and not cfg_is_variant(c['spec']['cfg']):
             stats.setdefault('_named', _named_stats())['reference_layout_cases'] += 1
         flagged = rec['flagged']
